@@ -868,6 +868,12 @@ func (ed Editor) WrapOpts(width int, opts Options) Editor {
 			} else {
 				text = text.Sub(sepStart.Len(), text.Len())
 			}
+
+			// as outside of paragraph mode, a paragraph that ends with a line
+			// separator keeps it
+			if strings.HasSuffix(para.String(), opts.LineSeparator) {
+				text = text.Add(gem.New(opts.LineSeparator))
+			}
 			return []gem.String{text}
 		}, opts)
 		return edi
